@@ -61,6 +61,7 @@ class Sched:
         self.parked: list[tuple[str, asyncio.Future[None]]] = []
         self.released: list[str] = []
         self.auto_release = True  # when False gates are only released via release()
+        self.low_prefix: str | None = None  # gates with this label prefix are released only when nothing else is parked
         self.on_release: Callable[[str], None] | None = None
 
     async def gate(self, label: str) -> None:
@@ -89,6 +90,10 @@ class Sched:
         live = [e for e in self.parked if not e[1].done()]
         if not self.auto_release:
             live = []
+        if self.low_prefix is not None:
+            normal = [e for e in live if not e[0].startswith(self.low_prefix)]
+            if normal:
+                live = normal
         n = len(live) + (1 if (self.time_is_choice and timeout is not None and live) else 0)
         if not live:
             return False
